@@ -215,3 +215,11 @@ func (r *Report) ArgValues(rule string, u *Unit, m M, i int, allowed []string, m
 		r.Check(rule, fmt.Sprintf("%s: argument %d of %s is one of {%s}", u.Name, i, m.Desc(), strings.Join(allowed, " ; ")), u.Pos(s.Pos), ok, "argument: "+got)
 	}
 }
+
+// Require: the unit must contain at least one site matching m (a required effect). Its absence is a
+// violation of the rule, not a broken anchor: the function resolved, the effect is gone.
+func (r *Report) Require(rule string, u *Unit, m M, why string) bool {
+	n := len(u.Match(m))
+	r.Check(rule, fmt.Sprintf("%s: contains %s", u.Name, m.Desc()), "", n > 0, why)
+	return n > 0
+}
